@@ -74,7 +74,7 @@ pub fn run(ctx: &mut Ctx) {
     let (mut is, _names) = new_iset();
     let cache = sorted_cache(&is);
     let judge = Judge { frame: true, reference: true };
-    let n = ctx.n(40000, 1000000);
+    let n = ctx.n(40000, 6000000);
     let positions = |r: &mut Rng, size: usize| -> i32 {
         match r.below(6) {
             0 => *r.pick(&[i32::MIN, -1, i32::MAX]),
